@@ -49,7 +49,7 @@ OBLIGATIONS = [
     # source-level tie (T1): the function bodies regenerated from the current source (coq/gen/GenC06.v)
     "C06_src_apply_operation", "C06_src_readings", "C06_src_maps", "C06_src_utils", "C06_src_signatures",
     "C06_src_tree_ignores_masked", "C06_src_observed_closed", "C06_src_std_guard", "C06_src_std_sqrt_defined",
-    "C06_src_std_nan_not_refused",
+    "C06_src_std_nan_not_refused", "C06_src_unary", "C06_noise_std_observed_only", "C06_noise_std_observed_only_after_burn_in",
 ]
 
 
@@ -145,6 +145,7 @@ def main(run: Run):
     run.log("api tie done")
     # each stage on its own: a tie that no longer runs must not stop the search for a failing input on the real pipeline
     for stage, fn in (("std-tie", lambda: SRC.std_tie(run, 6000 if thorough else 600)),
+                      ("noise-std-tie", lambda: SRC.noise_std_tie(run, 2000 if thorough else 200)),
                       ("noise-tie", lambda: P.noise_tie(run, 4000 if thorough else 400)),
                       ("saem-tie", lambda: S.saem_tie(run, 3000 if thorough else 300)),
                       ("put-data-tie", lambda: P.put_data_tie(run, 400 if thorough else 60)),
@@ -176,6 +177,13 @@ def replay(run: Run, path: str):
         return 1 if bad else 0
     if sc == "std":
         SRC.std_tie(run, 0, only=[inp["case"]])
+        for f in run._fails:
+            print("FAIL", f["signature"], f["what"], "observed:", f.get("observed"))
+        fails = bool(run._fails or run._known_hit or run._broken)
+        print("REPLAY", "FAILS" if fails else "passes")
+        return 1 if fails else 0
+    if sc == "noise-std-tie":
+        SRC.noise_std_tie(run, 0, only=[inp])
         for f in run._fails:
             print("FAIL", f["signature"], f["what"], "observed:", f.get("observed"))
         fails = bool(run._fails or run._known_hit or run._broken)
